@@ -13,9 +13,11 @@ def run(tier, seed):
     jobs = []
     for profile in ("checked", "release"):
         bindir = vlib.build_harness(profile)
-        out = os.path.join(chk.workdir, profile)
-        vlib.drive(bindir, "skfields", seed=seed, thorough=1 if tier == "thorough" else 0, out=out, timeout=3600)
-        jobs += [(s, os.path.join(out, "skfields_%d.ndjson" % s)) for s in (44, 65, 87)]
+        # thorough: the exhaustive field sweep is repeated on four different base keys
+        for rnd, sd in enumerate([seed] if tier == "quick" else [seed, seed + 101, seed + 202, seed + 303]):
+            out = os.path.join(chk.workdir, "%s%d" % (profile, rnd))
+            vlib.drive(bindir, "skfields", seed=sd, thorough=1 if tier == "thorough" else 0, out=out, timeout=3600)
+            jobs += [(s, os.path.join(out, "skfields_%d.ndjson" % s)) for s in (44, 65, 87)]
     mism, _ = common.validate_judged(chk, os.path.join(common.TRACE_DIR, "TraceCodec.tla"), jobs, nproc=12, chunk=24)
     cases = 0
     for s, p in jobs:
